@@ -7,7 +7,9 @@ import (
 	"math/big"
 	"strconv"
 	"strings"
+	"sync"
 	"time"
+	"verif/internal/enum"
 
 	"golang.org/x/mod/module"
 	"golang.org/x/mod/semver"
@@ -343,6 +345,37 @@ func Run(r *fw.Run) {
 				}
 			}
 			r.Merge(l)
+		}
+		// dense length sweep: a revision of every length 1..4400 (hex digits, other letters, digits; 4400 covers every boundary around a 4 KiB buffer)
+		if s[0] == "v1.2.3" {
+			var mu sync.Mutex
+			fillsD := []byte{'a', 'g', '7', 'F'}
+			r.Bounds["dense_length_sweep"] = fmt.Sprintf("revisions of every length 1..%d x %d fills x 2 bases", 4400, len(fillsD))
+			fw.Parallel(16*len(fillsD), func(job int) {
+				l := fw.NewLocal()
+				defer r.Merge(l)
+				i, sh := job/16, job%16
+				enum.EachLength(fillsD[i], 4400, func(rev string) {
+					if rev == "" || len(rev)%16 != sh {
+						return
+					}
+					for _, base := range []string{"", "v1.2.3-pre"} {
+						major := "v1"
+						if base == "" {
+							major = "v0"
+						}
+						l.States++
+						l.Transitions++
+						l.Execs++
+						if _, msg := one(major, base, ts[1], rev); msg != "" {
+							c := caseT{Major: major, Base: base, Time: ts[1].Format(time.RFC3339Nano), Rev: rev}
+							mu.Lock()
+							r.Violation(fmt.Sprintf("dense:%s|%s|%c|%d", major, base, fillsD[i], len(rev)), msg, c)
+							mu.Unlock()
+						}
+					}
+				})
+			})
 		}
 		r.Sample(map[string]any{"base": s[0], "rev": s[1], "time": ts[13].Format(time.RFC3339Nano), "pseudo": module.PseudoVersion("", s[0], ts[13], s[1])})
 	}
